@@ -39,11 +39,14 @@ ReadFileFrom(fs, cwd, rs, path, i, depth) ==
                          path, i + 1, depth)
        ELSE ReadFileFrom(fs, cwd, StepRead(rs, line), path, i + 1, depth)
 
+\* files may be nested this deep below the main file; deeper nesting is refused (it is taken for a file including itself)
+MaxIncludeDepth == 32
+
 InitFiles(devs, callerdirs) == [x \in DOMAIN InitRead(devs) \cup {"incdirs", "missing"} |->
                                   IF x = "incdirs" THEN callerdirs ELSE IF x = "missing" THEN "" ELSE InitRead(devs)[x]]
 
 RunTree(fs, cwd, main, callerdirs, devs, mat) ==
-  LET r0 == ReadFile(fs, cwd, InitFiles(devs, callerdirs), main, 6)
+  LET r0 == ReadFile(fs, cwd, InitFiles(devs, callerdirs), main, MaxIncludeDepth)
       x  == Finish(ExpandAll(r0), mat)
   IN IF x.ok THEN x ELSE [ok |-> FALSE, line |-> x.line, phase |-> x.phase, missing |-> r0.missing]
 =============================================================================
